@@ -143,5 +143,9 @@ func apiKinds(in term.T) map[string]int {
 }
 
 func init() {
-	register("engineapi", component{gen: apiGen, run: apiRun, kinds: apiKinds})
+	register("engineapi", component{gen: apiGen, run: apiRun, kinds: apiKinds,
+		hung: func(term.T) term.T {
+			// the run (or a probe) did not return within the per-case time limit: status 3 of the run, no probes
+			return term.C("ApiOut", obsTerm(runObs{status: 3, msg: "the run did not return within the per-case time limit (it fails to stop)"}), term.I(0), term.L())
+		}})
 }
